@@ -5,6 +5,7 @@ package main
 import (
 	"fmt"
 	"go/ast"
+	"go/constant"
 	"go/token"
 	"go/types"
 	"os"
@@ -30,6 +31,7 @@ type Engine struct {
 	fnIDs     map[*ssa.Function]int
 	typeCache map[string]types.Type
 	typeIDs   map[string]int
+	cgInit    map[string]string
 }
 
 func loadEngine(repo string) (*Engine, error) {
@@ -1040,4 +1042,45 @@ func (e *Engine) structuralObligations() []*Obligation {
 		out = append(out, o)
 	}
 	return out
+}
+
+// constGlobalInit returns the integer constant a `constglobal` variable is initialised with by the package initialiser
+// (the variable is never assigned elsewhere - STRUCT/constglobal - so this IS its value).
+func (e *Engine) constGlobalInit(name string) (string, bool) {
+	if e.cgInit == nil {
+		e.cgInit = map[string]string{}
+		for fn := range ssautil.AllFunctions(e.prog) {
+			if fn.Pkg == nil || e.pkgs[fn.Pkg.Pkg.Name()] != fn.Pkg {
+				continue
+			}
+			if !(fn.Name() == "init" && fn.Synthetic != "" || strings.HasPrefix(fn.Name(), "init#")) {
+				continue
+			}
+			for _, b := range fn.Blocks {
+				for _, in := range b.Instrs {
+					st, ok := in.(*ssa.Store)
+					if !ok {
+						continue
+					}
+					g, ok := st.Addr.(*ssa.Global)
+					if !ok || g.Pkg == nil {
+						continue
+					}
+					c, ok := st.Val.(*ssa.Const)
+					if !ok || c.Value == nil || c.Value.Kind() != constant.Int {
+						continue
+					}
+					n := g.Name()
+					if g.Pkg.Pkg.Name() != "lua" {
+						n = g.Pkg.Pkg.Name() + "." + n
+					}
+					if v, exact := constant.Int64Val(c.Value); exact {
+						e.cgInit[n] = fmt.Sprint(v)
+					}
+				}
+			}
+		}
+	}
+	v, ok := e.cgInit[name]
+	return v, ok
 }
